@@ -153,7 +153,7 @@ _ROOT_LINE = re.compile(r"^  calculated root hash  (\w+): (\S+) \(content\), (\S
 
 def printed_table(stdout):
     out = {}
-    for l in stdout.splitlines():
+    for l in stdout.split("\n"):
         m = _ROOT_LINE.match(l)
         if m:
             out.setdefault(m.group(1), {})[""] = (m.group(2), m.group(3))
